@@ -3,7 +3,29 @@ import TboxModel.C07.Spec
 namespace Tbox.C07
 open Buf
 
-def Buf.Inv (b : Buf) : Prop := b.r ≤ b.w ∧ b.w ≤ b.mem.length
+/-- representation invariant: `read_index_ ≤ write_index_ ≤ buffer_size_`, and the size is a `size_t` -/
+def Buf.Inv (b : Buf) : Prop := b.r ≤ b.w ∧ b.w ≤ b.mem.length ∧ b.mem.length < W
+instance (b : Buf) : Decidable b.Inv := by unfold Buf.Inv; exact inferInstance
+
+/-! `size_t` arithmetic equals the mathematical one where nothing wraps -/
+theorem usub_eq (a b : Nat) (h : b ≤ a) (_ha : a < W) : usub a b = a - b := by
+  unfold usub; simp [h]
+theorem uadd_eq (a b : Nat) (h : a + b < W) : uadd a b = a + b := by
+  unfold uadd; simp [h]
+theorem ushl1_eq (a : Nat) (h : a * 2 < W) : ushl1 a = a * 2 := by
+  unfold ushl1; simp [h]
+/-- the three operations are arithmetic modulo `2^64` on `size_t` operands -/
+theorem uadd_mod (a b : Nat) (ha : a < W) (hb : b < W) : uadd a b = (a + b) % W := by
+  unfold uadd; split <;> (unfold W at *; omega)
+theorem usub_mod (a b : Nat) (ha : a < W) (hb : b < W) : usub a b = (a + W - b) % W := by
+  unfold usub; split <;> (unfold W at *; omega)
+theorem ushl1_mod (a : Nat) (ha : a < W) : ushl1 a = (a * 2) % W := by
+  unfold ushl1; split <;> (unfold W at *; omega)
+
+theorem writable_eq (b : Buf) (h : b.Inv) : b.writable = b.mem.length - b.w := by
+  unfold Buf.writable Buf.size; exact usub_eq _ _ h.2.1 h.2.2
+theorem readableSize_eq (b : Buf) (h : b.Inv) : b.readableSize = b.w - b.r := by
+  unfold Buf.readableSize; exact usub_eq _ _ h.1 (by have := h.2.1; have := h.2.2; omega)
 
 theorem poke_length (mem : List Byte) (off : Nat) (d : List Byte)
     (h : off + d.length ≤ mem.length) : (poke mem off d).length = mem.length := by
